@@ -180,6 +180,36 @@ def main(tier):
                 pass
         maps += ["null", "[]", "{\"a\":null}", "5"]
         run.diff_stream("jsonmapm", [f"jsonmapm {hx(d)}" for d in maps], go_timeout=300)
+        # restored values that refer to each other: whatever cycle of calls / loads the restored bodies form, the budget ends it
+        # with an error — the first evaluation compiles the bodies on the way down, so this is also the "first use" history
+        def J(o):
+            return _json0.dumps(o, ensure_ascii=False)
+        import json as _json0
+        C = lambda e: {"t": 5, "v": {"expr": e}}
+        Fn = lambda e, ps: {"t": 8, "v": {"expr": e, "name": "f", "params": ps}}
+        I = lambda n: {"t": 0, "v": n}
+        RECUR = [
+            ({"x": C("n > 0 ? f(&x) : 0"), "f": Fn("c", ["c"]), "n": I(1)}, ["x", "x", "n = 0", "x", "n = 1", "x"]),
+            ({"x": C("n > 0 ? f(&x) : 0"), "f": Fn("c", ["c"]), "n": I(0)}, ["x", "n = 1", "x"]),
+            ({"a": C("b"), "b": C("a")}, ["a", "b", "a + b"]),
+            ({"f": Fn("g()", []), "g": Fn("f()", [])}, ["f()", "g()"]),
+            ({"x": C("x + 1")}, ["x", "x"]),
+            ({"f": Fn("c", ["c"]), "x": C("f(&x)")}, ["x", "f(&x)", "x"]),
+            ({"x": C("&x.compute()")}, ["x", "x"]),
+            ({"f": Fn("f()", [])}, ["f()", "f()"]),
+            ({"f": Fn("n > 0 ? f(n - 1) + f(n - 1) : 1", ["n"])}, ["f(3)", "f(30)", "f(3)"]),
+            ({"x": C("`{x}`")}, ["x"]),
+            ({"x": C("[x]")}, ["x"]),
+            ({"d1": {"t": 7, "v": {"dict": {"c": C("d1.c")}}}}, ["d1.c", "d1.c"]),
+            ({"x": C("load('x')")}, ["x", "x"]),
+            ({"f": Fn("load('g')()", []), "g": Fn("load('f')()", [])}, ["f()"]),
+        ]
+        rl = [f"jsonmaprun {hx(J(m))} " + " ".join(hx(sc) for sc in scripts) for m, scripts in RECUR]
+        out = run.go_only("restored-recursion", rl, go_timeout=600, line_timeout=60)
+        for (m, scripts), (ln, g) in zip(RECUR, out):
+            run.nontriv(("recur", J(m)))
+            if g.startswith("died") or "panic" in g:
+                run.violation("booby-trapped-value:restored-values-recurse-without-bound", {"variables": J(m), "scripts": scripts, "implementation": g[:400]})
         # stored functions / computed values whose body no longer parses, every cut, every arity the battery calls with
         import json as _json
         for body in BROKEN_BODY:
